@@ -327,6 +327,18 @@ def gen_statements(env, quick):
             if not quick:
                 out.append(('line-style', b'LINE %s-%s,%d,,&HF0F0' % (P(x0, y0), P(x1, y1), c)))
                 out.append(('line-b-style', b'LINE %s-%s,%d,B,&HAAAA' % (P(x0, y0), P(x1, y1), c)))
+    # shapes that lie wholly off the screen at a moderate distance (negative absolute coordinates that are
+    # still in the range of a row or column index): nothing may appear anywhere
+    W_, H_ = g.w, g.h
+    off = [(-150, 10, -120, 20), (10, -150, 20, -120), (-50, -50, -2, -2), (-2, 5, -2, 9), (5, -3, 9, -2),
+           (W_ + 2, 10, W_ + 50, 20), (10, H_ + 2, 20, H_ + 50), (-W_ + 5, 3, -W_ + 30, 8), (3, -H_ + 5, 8, -H_ + 30)]
+    for (ax, ay, bx, by) in off:
+        p0, p1 = P(ax - env.ox, ay - env.oy), P(bx - env.ox, by - env.oy)
+        out.append(('line-bf', b'LINE %s-%s,%d,BF' % (p0, p1, c)))
+        out.append(('line-bf', b'LINE %s-%s,%d,BF' % (p1, p0, c)))
+        out.append(('line-b', b'LINE %s-%s,%d,B' % (p0, p1, c)))
+        out.append(('line', b'LINE %s-%s,%d' % (p0, p1, c)))
+        out.append(('pset', b'PSET %s,%d' % (p0, c)))
     # CIRCLE
     lr = env.lr
     if quick:
